@@ -1,0 +1,189 @@
+//! Verification hook (feature `gdsl_verif`, off by default).
+//!
+//! An observable stand-in for `std::sync::RwLock` used by the node locks of
+//! the `sync_digraph` and `sync_ungraph` modules when the feature is on.
+//! It has the same `new` / `read` / `write` surface as the std lock and its
+//! guards deref like the std guards.  An installable [`LockObserver`] is told
+//! about every lock point (`before`), every acquisition and every release, so
+//! that an external scheduler or monitor can serialise threads at lock points,
+//! keep a lock table and turn a re-entrant acquisition into a report instead
+//! of a hang.  With no observer installed every call forwards straight to the
+//! std lock (one relaxed atomic load and a branch).
+//!
+//! Nothing in this file changes what the library computes.
+
+use std::ops::{Deref, DerefMut};
+use std::sync::atomic::{AtomicBool, Ordering};
+use std::sync::{self, Arc, LockResult, PoisonError, TryLockError};
+
+/// Receives the lock events of all node locks.  `lock` is the address of the
+/// lock (stable for the lifetime of the node), `write` the requested mode.
+pub trait LockObserver: Send + Sync {
+    /// Called immediately before an acquisition is attempted.  May block the
+    /// calling thread (scheduling point) or panic (to report a violation).
+    fn before(&self, lock: usize, write: bool);
+    /// Called when a non-blocking acquisition attempt made after `before`
+    /// returned did not succeed.  Returning makes the caller fall back to the
+    /// blocking std call; the observer may instead panic or park the thread.
+    fn would_block(&self, lock: usize, write: bool);
+    /// Called right after the lock was acquired.
+    fn acquired(&self, lock: usize, write: bool);
+    /// Called right after the guard was dropped.
+    fn released(&self, lock: usize, write: bool);
+}
+
+static ENABLED: AtomicBool = AtomicBool::new(false);
+static OBSERVER: sync::RwLock<Option<Arc<dyn LockObserver>>> = sync::RwLock::new(None);
+
+/// Installs `obs` as the process-wide observer (replacing any previous one).
+pub fn install(obs: Arc<dyn LockObserver>) {
+    *OBSERVER.write().unwrap_or_else(|e| e.into_inner()) = Some(obs);
+    ENABLED.store(true, Ordering::SeqCst);
+}
+
+/// Removes the observer; the wrapper is inert again.
+pub fn uninstall() {
+    ENABLED.store(false, Ordering::SeqCst);
+    *OBSERVER.write().unwrap_or_else(|e| e.into_inner()) = None;
+}
+
+fn observer() -> Option<Arc<dyn LockObserver>> {
+    if ENABLED.load(Ordering::Relaxed) {
+        OBSERVER.read().unwrap_or_else(|e| e.into_inner()).clone()
+    } else {
+        None
+    }
+}
+
+pub struct RwLock<T> {
+    inner: sync::RwLock<T>,
+}
+
+pub struct RwLockReadGuard<'a, T> {
+    inner: Option<sync::RwLockReadGuard<'a, T>>,
+    lock: usize,
+}
+
+pub struct RwLockWriteGuard<'a, T> {
+    inner: Option<sync::RwLockWriteGuard<'a, T>>,
+    lock: usize,
+}
+
+impl<T> RwLock<T> {
+    pub fn new(t: T) -> Self {
+        RwLock {
+            inner: sync::RwLock::new(t),
+        }
+    }
+
+    fn addr(&self) -> usize {
+        &self.inner as *const sync::RwLock<T> as usize
+    }
+
+    pub fn read(&self) -> LockResult<RwLockReadGuard<'_, T>> {
+        let lock = self.addr();
+        let obs = observer();
+        let res = match obs {
+            None => self.inner.read(),
+            Some(ref o) => {
+                o.before(lock, false);
+                match self.inner.try_read() {
+                    Ok(g) => Ok(g),
+                    Err(TryLockError::Poisoned(p)) => Err(p),
+                    Err(TryLockError::WouldBlock) => {
+                        o.would_block(lock, false);
+                        self.inner.read()
+                    }
+                }
+            }
+        };
+        if let Some(ref o) = obs {
+            o.acquired(lock, false);
+        }
+        match res {
+            Ok(g) => Ok(RwLockReadGuard {
+                inner: Some(g),
+                lock,
+            }),
+            Err(p) => Err(PoisonError::new(RwLockReadGuard {
+                inner: Some(p.into_inner()),
+                lock,
+            })),
+        }
+    }
+
+    pub fn write(&self) -> LockResult<RwLockWriteGuard<'_, T>> {
+        let lock = self.addr();
+        let obs = observer();
+        let res = match obs {
+            None => self.inner.write(),
+            Some(ref o) => {
+                o.before(lock, true);
+                match self.inner.try_write() {
+                    Ok(g) => Ok(g),
+                    Err(TryLockError::Poisoned(p)) => Err(p),
+                    Err(TryLockError::WouldBlock) => {
+                        o.would_block(lock, true);
+                        self.inner.write()
+                    }
+                }
+            }
+        };
+        if let Some(ref o) = obs {
+            o.acquired(lock, true);
+        }
+        match res {
+            Ok(g) => Ok(RwLockWriteGuard {
+                inner: Some(g),
+                lock,
+            }),
+            Err(p) => Err(PoisonError::new(RwLockWriteGuard {
+                inner: Some(p.into_inner()),
+                lock,
+            })),
+        }
+    }
+
+    /// True if the underlying std lock is poisoned.
+    pub fn is_poisoned(&self) -> bool {
+        self.inner.is_poisoned()
+    }
+}
+
+impl<'a, T> Deref for RwLockReadGuard<'a, T> {
+    type Target = T;
+    fn deref(&self) -> &T {
+        self.inner.as_ref().unwrap()
+    }
+}
+
+impl<'a, T> Deref for RwLockWriteGuard<'a, T> {
+    type Target = T;
+    fn deref(&self) -> &T {
+        self.inner.as_ref().unwrap()
+    }
+}
+
+impl<'a, T> DerefMut for RwLockWriteGuard<'a, T> {
+    fn deref_mut(&mut self) -> &mut T {
+        self.inner.as_mut().unwrap()
+    }
+}
+
+impl<'a, T> Drop for RwLockReadGuard<'a, T> {
+    fn drop(&mut self) {
+        drop(self.inner.take());
+        if let Some(o) = observer() {
+            o.released(self.lock, false);
+        }
+    }
+}
+
+impl<'a, T> Drop for RwLockWriteGuard<'a, T> {
+    fn drop(&mut self) {
+        drop(self.inner.take());
+        if let Some(o) = observer() {
+            o.released(self.lock, true);
+        }
+    }
+}
